@@ -31,14 +31,61 @@ def spec_cells(spec):
     return out
 
 
-def build(spec):
+def touch(f):
+    """Fill every memoised view of f (what an application that has already displayed or
+    measured the value would have done)."""
+    str(f)
+    f.s
+    len(f)
+    try:
+        f.width
+    except Exception:  # noqa  (unmeasurable text)
+        pass
+    try:
+        hash(f)
+        repr(f)
+        f.shared_atts
+    except Exception:  # noqa  (no runs)
+        pass
+    return f
+
+
+BUILD = {"calls": 0, "offset": 0, "warm_builds": 0, "mode": "alternate"}
+
+
+def build(spec, warm=None):
+    """Construct the FmtStr a run specification describes, through the public API only.
+
+    Two construction routes are chosen between by a seeded coin per call: COLD - fmtstr(text, **atts) per run, concatenated with +, nothing
+    observed before the value is used; WARM - every intermediate value has been used the
+    way an application uses it (str, .s, len, width, hash, repr, shared_atts) before it is
+    restyled with fmtstr(value, **atts) and concatenated, so every memo slot is full when
+    the operation under test runs."""
     from curtsies.formatstring import FmtStr, fmtstr
+    BUILD["calls"] += 1
+    if warm is None:
+        # a seeded coin per call (strict alternation would alias with workload loops that
+        # build an even number of values per case)
+        x = (BUILD["calls"] * 2654435761 + BUILD["offset"] * 40503) & 0xFFFFFFFF
+        x ^= x >> 15
+        x = (x * 2246822519) & 0xFFFFFFFF
+        x ^= x >> 13
+        warm = BUILD["mode"] == "warm" or (BUILD["mode"] == "alternate" and x & 1 == 1)
     if not spec:
-        return FmtStr()
-    parts = [fmtstr(text, **atts) for text, atts in spec]
-    f = parts[0]
-    for p in parts[1:]:
-        f = f + p
+        f = FmtStr()
+        return touch(f) if warm else f
+    if not warm:
+        parts = [fmtstr(text, **atts) for text, atts in spec]
+        f = parts[0]
+        for p in parts[1:]:
+            f = f + p
+        return f
+    BUILD["warm_builds"] += 1
+    f = None
+    for text, atts in spec:
+        base = touch(fmtstr(text))
+        part = touch(fmtstr(base, **atts))
+        f = part if f is None else touch(f + part)
     return f
 
 
